@@ -1,5 +1,6 @@
 import JwtProofs.Validate
 import JwtModel.Gen.Validation
+import Props.FnTie
 /-!
 # C06 — validation flags every catalogued violation as blocking and never flags clean claims
 
